@@ -52,8 +52,11 @@ type FuncContract struct {
 	Effects    []*Clause // crash invariants
 	OnSpawn    []*Clause // ensures assumed by the spawner at `go f()`
 	Modifies   []string
+	Mutates    []string // slice parameters whose backing array the callee changes in place (externs only)
 	SpawnMods  []string
 	NoReturn   bool
+	Determ     string // "structural" (checked by scan) or "by-contract <reason>" (trusted) or ""
+	DetermProps []string
 	Pure       bool
 	Bounded    string
 	Trusted    bool // body not verified although it exists (reason required)
@@ -423,6 +426,20 @@ func (cs *ContractSet) parseFile(path, pkgPath string) error {
 						cur.Modifies = append(cur.Modifies, m)
 					}
 				}
+			case "mutates":
+				for _, m := range strings.Split(rest, ",") {
+					if m = strings.TrimSpace(m); m != "" {
+						cur.Mutates = append(cur.Mutates, m)
+					}
+				}
+			case "deterministic":
+				lab, props, body := splitLabel(rest)
+				_ = lab
+				cur.Determ = strings.TrimSpace(body)
+				if cur.Determ == "" {
+					cur.Determ = "structural"
+				}
+				cur.DetermProps = props
 			case "noreturn":
 				cur.NoReturn = true
 			case "pure":
